@@ -822,6 +822,8 @@ class Engine:
             return Opaque('<repr>')
         if getattr(f, '__name__', '') == 'fromhex' and len(args) == 1 and isinstance(args[0], HexOf):
             return args[0].b
+        if getattr(f, '__name__', '') == 'fromhex' and len(args) == 1 and hasattr(args[0], '__pyvc_fromhex__'):
+            return args[0].__pyvc_fromhex__(self)
         if f is len:
             (o,) = args
             if isinstance(o, Obj):
